@@ -81,7 +81,7 @@ func c08Templates(batch, nbatch int) []*gram.Grammar {
 	}
 	prefixes := []string{"none", "opt", "star", "poslook", "neglook", "consume", "bracketopt", "optgroup2", "nullable-production", "nullable-chain", "nullable-then-dependent", "nonempty-group-of-nullable-production"}
 	wrappers := []string{"bare", "paren", "optgroup", "stargroup", "look", "neg", "plusgroup", "captured-group-before"}
-	routes := []string{"direct", "viaB", "viaUnion", "viaBnullableprefix", "viaUnionOnly"}
+	routes := []string{"direct", "viaB", "viaUnion", "viaBnullableprefix", "viaUnionOnly", "unionCycleBelowRoot"}
 	altpos := []string{"first", "second-after-single", "second-after-multi", "third"}
 	n := 0
 	for pi, pf := range prefixes {
@@ -182,6 +182,28 @@ func c08Templates(batch, nbatch int) []*gram.Grammar {
 						var bFields []gram.Field
 						bexpr := &gram.Expr{Op: "alt", Kids: []*gram.Expr{seq(lit("b"), lit("c")), seq(mkRefT(&bFields, A)...)}}
 						g.Prods = append(g.Prods, &gram.Prod{Name: B, Fields: bFields, Expr: bexpr, PosStyle: 0})
+					case "unionCycleBelowRoot":
+						// root R = "s" @@U ; U = union(C, &B) ; B = <prefix> @@U "e" | ... : the cycle B -> U -> B
+						// does not contain the root, and B is referenced through the union only
+						aFields = []gram.Field{{Name: "F0", Kind: "uni", Target: U}}
+						recAlt = nil
+						var bFields []gram.Field
+						brec := seq(mkRefT(&bFields, U)...)
+						var bexpr *gram.Expr
+						switch ap {
+						case "first":
+							bexpr = &gram.Expr{Op: "alt", Kids: []*gram.Expr{brec, seq(lit("t"), lit("u"), lit("v"))}}
+						case "second-after-single":
+							bexpr = &gram.Expr{Op: "alt", Kids: []*gram.Expr{lit("t"), brec}}
+						case "second-after-multi":
+							bexpr = &gram.Expr{Op: "alt", Kids: []*gram.Expr{seq(lit("t"), lit("u"), lit("v")), brec}}
+						default:
+							bexpr = &gram.Expr{Op: "alt", Kids: []*gram.Expr{seq(lit("t"), lit("u")), seq(lit("m"), lit("n"), lit("o")), brec}}
+						}
+						g.Prods = append(g.Prods,
+							&gram.Prod{Name: C, Fields: []gram.Field{{Name: "F0", Kind: "string"}}, Expr: seq(lit("c"), &gram.Expr{Op: "cap", Field: 0, Kids: []*gram.Expr{{Op: "ref", Typ: "Ident"}}})},
+							&gram.Prod{Name: B, Fields: bFields, Expr: bexpr})
+						g.Unions = append(g.Unions, &gram.Union{Name: U, Members: []gram.Member{{Prod: C}, {Prod: B, Ptr: true}}})
 					case "viaUnionOnly":
 						// the cycle closes through a union whose member is the production itself:
 						// no struct of the cycle is referenced by a plain @@ field
@@ -204,15 +226,19 @@ func c08Templates(batch, nbatch int) []*gram.Grammar {
 					single := lit("t")
 					multi := seq(lit("t"), lit("u"), lit("v"))
 					var aexpr *gram.Expr
-					switch ap {
-					case "first":
-						aexpr = &gram.Expr{Op: "alt", Kids: []*gram.Expr{recAlt, multi}}
-					case "second-after-single":
-						aexpr = &gram.Expr{Op: "alt", Kids: []*gram.Expr{single, recAlt}}
-					case "second-after-multi":
-						aexpr = &gram.Expr{Op: "alt", Kids: []*gram.Expr{multi, recAlt}}
-					case "third":
-						aexpr = &gram.Expr{Op: "alt", Kids: []*gram.Expr{seq(lit("t"), lit("u")), seq(lit("m"), lit("n"), lit("o")), recAlt}}
+					if rt == "unionCycleBelowRoot" {
+						aexpr = seq(lit("s"), &gram.Expr{Op: "sub", Field: 0})
+					} else {
+						switch ap {
+						case "first":
+							aexpr = &gram.Expr{Op: "alt", Kids: []*gram.Expr{recAlt, multi}}
+						case "second-after-single":
+							aexpr = &gram.Expr{Op: "alt", Kids: []*gram.Expr{single, recAlt}}
+						case "second-after-multi":
+							aexpr = &gram.Expr{Op: "alt", Kids: []*gram.Expr{multi, recAlt}}
+						case "third":
+							aexpr = &gram.Expr{Op: "alt", Kids: []*gram.Expr{seq(lit("t"), lit("u")), seq(lit("m"), lit("n"), lit("o")), recAlt}}
+						}
 					}
 					aprod := &gram.Prod{Name: A, Fields: aFields, Expr: aexpr}
 					g.Prods = append([]*gram.Prod{aprod}, g.Prods...)
